@@ -27,6 +27,7 @@ class C01:
         cov["samples"] = [{"component": "proxy", "events": c.meta["events"], "first_event": pc.event_text(c, 0)[:5]} for c in cases[len(corpus):len(corpus) + 2]]
         cov["corpus_cases"] = len(corpus)
         cov["exhaustive"] = False
+        pc.explore_tb(ctx, "C01", ["proxytb-C01"], cov, failures)
         return {"coverage": cov, "failures": failures}
 
     def opts(self, rng, i):
